@@ -90,6 +90,20 @@ pub struct Sc {
     /// tails were inserted afterwards.  Each must answer from its own record.
     #[serde(default)]
     pub twin: bool,
+    /// a neighbour's call on the same thread before the record is built or used:
+    /// a digest of a stream whose reader delivers part of a line and then fails.
+    /// What such a call leaves behind must not reach the verification.
+    #[serde(default)]
+    pub neighbour: Option<Neighbour>,
+}
+
+#[derive(Clone, Debug, Serialize, Deserialize)]
+pub struct Neighbour {
+    pub patch: bool,
+    pub alg: usize,
+    pub data: Vec<u8>,
+    pub give: usize,
+    pub kind: crate::seams::ErrKind,
 }
 
 pub struct C12;
@@ -786,6 +800,27 @@ impl Property for C12 {
             lookups,
             direct,
             twin: rng.chance(1, 3),
+            neighbour: if rng.chance(1, 4) {
+                let data: Vec<u8> = rng
+                    .pick(&[
+                        &b"+an ordinary line, cut before its end"[..],
+                        &b"$NetBSD: patch-aa,v 1.1 2024/01/01 00:00:00 cut"[..],
+                        &b"first\nsecond line, cut"[..],
+                        &b"x"[..],
+                        &b"$NetBSD$\n+kept\n-cut"[..],
+                    ])
+                    .to_vec();
+                let give = if rng.chance(1, 2) { data.len() } else { rng.urange(1, data.len()) };
+                Some(Neighbour {
+                    patch: rng.chance(3, 4),
+                    alg: rng.usize_below(6),
+                    data,
+                    give,
+                    kind: *rng.pick(&crate::seams::ErrKind::ALL),
+                })
+            } else {
+                None
+            },
         }
     }
 
@@ -812,6 +847,15 @@ impl Property for C12 {
                 ctx.fault("stored_behind_symlink");
             }
             ctx.step("store", f.content.len() as u64, model_is_patch(&f.name) as u64);
+        }
+        if let Some(nb) = &sc.neighbour {
+            use crate::seams::{ReadStep, SimReader};
+            ctx.fault("neighbour_call_failed");
+            let mut r = SimReader::new(nb.data.clone(), vec![ReadStep::Give(nb.give.max(1)), ReadStep::FailForever(nb.kind)]);
+            let res = if nb.patch { ALGS[nb.alg].hash_patch(&mut r) } else { ALGS[nb.alg].hash_file(&mut r) };
+            if res.is_err() {
+                ctx.probe("neighbour-call-failed-before-the-record-is-used");
+            }
         }
         // the record, as the model sees it
         let mut recs: Vec<Record> = sc
@@ -1464,6 +1508,9 @@ impl Property for C12 {
         }
         if sc.via_api {
             push!(Sc { via_api: false, ..sc.clone() });
+        }
+        if sc.neighbour.is_some() {
+            push!(Sc { neighbour: None, ..sc.clone() });
         }
         for (i, f) in sc.files.iter().enumerate() {
             for c in shrink_vec(&f.content) {
